@@ -727,6 +727,18 @@ class Sample:
                 # the fragment shows the multi-substitution allele at this site
                 if pos in self.phaseable:
                     phase[pos] = op
+            elif (
+                pos < start < pos + len(l)
+                and phase.get(pos) == f"{l[0]}>{r[0]}"
+                and all(
+                    (pos + p, f"{l[p]}>{r[p]}") in dump_arr
+                    for p in range(start - pos)
+                    if l[p] != "."
+                )
+            ):
+                # the read ends inside the multi-substitution and shows it as far as
+                # it goes: it cannot tell which allele the fragment carries here
+                del phase[pos]
 
         if self._indel_sites_eqs:  # long-read hack
             for pos, op in self._indel_sites:
